@@ -279,7 +279,7 @@ def main(argv):
 
     for kid, n in merged["known_seen"].items():
         if kid not in known_printed:
-            k = [x for x in known if x["id"] == kid][0]
+            k = [x for x in known if x.get("id") == kid][0]
             print("KNOWN-FINDING: property=%s %s [%s]" % (prop, k["what"], kid))
             known_printed.add(kid)
 
